@@ -195,6 +195,8 @@ pub struct DecCase {
     pub compressed: bool,
     pub prefix: String,
     pub garbage: Vec<u8>,
+    /// IS_MSO only: the TextStart byte (anywhere: inside the text, behind its terminator, beyond the message)
+    pub textstart: u8,
 }
 
 pub struct DecodeSide;
@@ -237,7 +239,7 @@ impl Part for DecodeSide {
                     Mode::Uncompressed => frame.len() as u8,
                 };
                 if variant == "Mso" {
-                    frame[off - 1] = 0; // TextStart 0
+                    frame[off - 1] = c.textstart;
                 }
             },
         }
@@ -245,7 +247,15 @@ impl Part for DecodeSide {
             Shape::Fixed { n, .. } => n,
             Shape::Var { max, .. } => max,
         }).collect();
-        let pkt = decode_one(&frame, &mode).map_err(|e| Fail::new(format!("c11:frame-rejected:{name}"), format!("{name}: {e}: {}", hex(&frame))))?;
+        let pkt = match decode_one(&frame, &mode) {
+            Ok(p) => p,
+            // a TextStart beyond the message that was sent cannot be honoured: refusing that frame is fine
+            Err(_) if variant == "Mso" && c.textstart as usize > frame.len() - off => {
+                ev.class("mso-text-start-beyond-the-message: refused");
+                return Ok(());
+            },
+            Err(e) => return Err(Fail::new(format!("c11:frame-rejected:{name}"), format!("{name}: {e}: {}", hex(&frame)))),
+        };
         let tree = dbgtree::parse(&format!("{pkt:?}")).map_err(|e| Fail::new("harness:debug-parse", e))?;
         let node = tree.get(path).ok_or_else(|| Fail::new("harness:path-missing", format!("{path} in {pkt:?}")))?;
         let want = format!("{expected:?}");
@@ -256,20 +266,23 @@ impl Part for DecodeSide {
             hex(&content),
             node.text()
         );
-        ev.nontrivial(&(c.field, &c.prefix, &c.garbage));
+        ev.nontrivial(&(c.field, &c.prefix, &c.garbage, c.textstart));
         ev.class(&name);
+        if variant == "Mso" && c.textstart as usize > c.prefix.len() {
+            ev.class("mso-text-start-behind-the-terminator");
+        }
         if ev.wants_sample() && content.len() <= 16 {
             ev.sample(|| json!({"field": name, "field_bytes": hex(&content), "decoded": expected}));
         }
         Ok(())
     }
     fn to_json(&self, c: &DecCase) -> Value {
-        json!({"field": field_name(c.field), "compressed": c.compressed, "prefix": c.prefix, "garbage": hex(&c.garbage)})
+        json!({"field": field_name(c.field), "compressed": c.compressed, "prefix": c.prefix, "garbage": hex(&c.garbage), "textstart": c.textstart})
     }
     fn from_json(&self, v: &Value) -> Option<DecCase> {
         let f = v.get("field")?.as_str()?;
         let idx = (0..build::TEXT_FIELDS.len()).find(|i| field_name(*i) == f)?;
-        Some(DecCase { field: idx, compressed: v.get("compressed")?.as_bool()?, prefix: v.get("prefix")?.as_str()?.to_string(), garbage: unhex(v.get("garbage")?.as_str()?)? })
+        Some(DecCase { field: idx, compressed: v.get("compressed")?.as_bool()?, prefix: v.get("prefix")?.as_str()?.to_string(), garbage: unhex(v.get("garbage")?.as_str()?)?, textstart: v.get("textstart").and_then(|t| t.as_u64()).unwrap_or(0) as u8 })
     }
 }
 
@@ -344,7 +357,12 @@ pub fn run(run: &mut Run) {
     let n = run.budget(150_000, 8_000_000);
     run.prop(&EncodeSide, strat, n);
     // (3) decode side
-    let strat = (0..build::TEXT_FIELDS.len(), any::<bool>(), "[ -~]{0,20}".prop_map(|s: String| s.replace('^', "x")), proptest::collection::vec(any::<u8>(), 0..40)).prop_map(|(field, compressed, prefix, garbage)| DecCase { field, compressed, prefix, garbage });
+    let strat = (0..build::TEXT_FIELDS.len(), any::<bool>(), "[ -~]{0,20}".prop_map(|s: String| s.replace('^', "x")), proptest::collection::vec(any::<u8>(), 0..40), prop_oneof![Just(0u8), 0u8..70, any::<u8>()]).prop_map(|(field, compressed, prefix, garbage, textstart)| DecCase { field, compressed, prefix, garbage, textstart });
+    // the MSO field is one of 30: give it its own share, TextStart anywhere
+    let mso = build::TEXT_FIELDS.iter().position(|(v, _)| *v == "Mso").expect("Mso.msg is a text field");
+    let mso_strat = (any::<bool>(), "[ -~]{0,20}".prop_map(|s: String| s.replace('^', "x")), proptest::collection::vec(any::<u8>(), 0..40), 0u8..80).prop_map(move |(compressed, prefix, garbage, textstart)| DecCase { field: mso, compressed, prefix, garbage, textstart });
+    let n = run.budget(20_000, 1_000_000);
+    run.prop(&DecodeSide, mso_strat, n);
     let n = run.budget(60_000, 2_000_000);
     run.prop(&DecodeSide, strat, n);
 }
